@@ -226,6 +226,10 @@ func runC05(c *core.Ctx) {
 			o, s := rspRun(cfg, cs)
 			return core.Exec{Sched: s, Outcome: "schedule-level hook=" + cs.Hook + " " + c05Outcome(o), Viol: c05Judge(cs, o)}
 		})
+		c.ExploreSlow(cs, vsched.Config{}, []int{0, 100}, func(cfg vsched.Config) core.Exec {
+			o, s := rspRun(cfg, cs)
+			return core.Exec{Sched: s, Outcome: "hook=" + cs.Hook + " " + c05Outcome(o), Viol: c05Judge(cs, o)}
+		})
 	}
 }
 
@@ -241,7 +245,7 @@ func init() {
 			}
 			var cs rspCase
 			if json.Unmarshal(raw, &w) == nil && w.Label != nil && w.Label.Hook != "" {
-				o, _ := rspRun(vsched.Config{Prefix: w.Prefix}, *w.Label)
+				o, _ := rspRun(core.CfgFromReplay(raw), *w.Label)
 				if v := c05Judge(*w.Label, o); v != nil {
 					return v.Signature + ": " + v.What
 				}
